@@ -3,12 +3,12 @@ package chk
 // Additional narrow rules added after the second round of seeded changes.
 
 import (
-	"sort"
-	"go/ast"
 	"fmt"
+	"go/ast"
 	"go/constant"
 	"go/token"
 	"go/types"
+	"sort"
 	"strings"
 
 	"golang.org/x/tools/go/ssa"
@@ -2077,4 +2077,57 @@ func stickyJustified(c *Ctx, f *ssa.Function, sr *ssa.Parameter, retBlock *ssa.B
 		return "the payload is read as one block and parsed by a callee whose error is returned"
 	}
 	return ""
+}
+
+// impureObservers: observers that store into their receiver on today's tree, each read and accepted.
+var impureObservers = map[string]string{
+	"mp4.MdatBox.Size": "sets LargeSize when the payload no longer fits a 32-bit size: monotone and idempotent, the header form the size implies",
+	"mp4.SencBox.Info": "ORs the sub-sample flag into Flags when sub-samples are present: a no-op for decoded boxes (sub-samples are only parsed when the flag is set)",
+}
+
+// ruleObserversPure (R3-OBS) — Size, Info, String, Type, Payload and the Get*/Is*/Has* accessors do not change
+// the structure they are called on: no store whose address is rooted at the receiver.
+func ruleObserversPure(c *Ctx, r *Report, pkgs map[string]bool) int {
+	n := 0
+	for _, f := range c.RepoFuncs(IsLib) {
+		if f.Synthetic != "" || f.Pkg == nil || !pkgs[f.Pkg.Pkg.Name()] || f.Signature.Recv() == nil || f.Parent() != nil {
+			continue
+		}
+		if strings.HasSuffix(c.Fset.Position(f.Pos()).Filename, "_test.go") {
+			continue
+		}
+		nm := f.Name()
+		obs := nm == "Size" || nm == "Info" || nm == "String" || nm == "Type" || nm == "Payload" ||
+			strings.HasPrefix(nm, "Get") || strings.HasPrefix(nm, "Is") || strings.HasPrefix(nm, "Has")
+		if !obs || len(f.Params) == 0 {
+			continue
+		}
+		n++
+		key := SSAFuncName(f)
+		recv := f.Params[0]
+		bad := ""
+		var pos token.Pos
+		for _, b := range f.Blocks {
+			for _, ins := range b.Instrs {
+				st, ok := ins.(*ssa.Store)
+				if !ok {
+					continue
+				}
+				if p := rootParam(st.Addr, 0); p == recv {
+					bad = "stores into a field of its receiver"
+					pos = st.Pos()
+				}
+			}
+		}
+		if why, ok := impureObservers[key]; ok && bad != "" {
+			r.OK("R3-OBS", key, c.Pos(pos), "accepted: "+why)
+			continue
+		}
+		if bad != "" {
+			r.Bad("R3-OBS", key, c.Pos(pos), "the observer "+bad+": looking at a structure (size, info, accessor) changes it, so a second encode or a concurrent reader sees something else")
+		} else {
+			r.OK("R3-OBS", key, c.Pos(f.Pos()), "no store through the receiver")
+		}
+	}
+	return n
 }
